@@ -4,22 +4,27 @@ from .fam_replica import ReplicaFam
 from .prop_C02 import CRYPTO_TRUST
 
 REPLICA_TRUST = COMMON_TRUST + CRYPTO_TRUST + [
-    "the replica under test is wired as twins/node.go wires a node; timers, goroutines and gRPC are outside the model (local timeouts are explicit events, votes are verified synchronously)",
+    "the replica under test is wired as twins/node.go wires a node; timers, goroutines and gRPC are outside the model (local timeouts are explicit events, votes are verified synchronously, the event queue never overflows in the harness)",
+    "Std.Do program logic / mvcgen tactic of Lean 4.33 (experimental tactic; the resulting proof terms are checked by the kernel like any other)",
 ]
 
 PROP = Property(
-    "C03", [], [ReplicaFam("c03")],
+    "C03", ["HsVerif.Props.C03"], [ReplicaFam("c03")],
     facts=[
         {"func": "protocol/consensus/voter.go:Voter.Verify", "order": ["View", "VoteRule", "VerifyAnyQC", "QuorumCert", "Parent", "GetLeader"]},
         {"func": "protocol/consensus/voter.go:Voter.Vote", "contains": ["CreatePartialCert", "View"]},
         {"func": "protocol/consensus/voter.go:Voter.OnValidPropose", "order": ["TryCommit", "Vote", "Aggregate"]},
+        {"func": "protocol/consensus/voter.go:Voter.StopVoting", "absent": ["Sign", "CreatePartialCert"]},
         {"func": "protocol/consensus/proposer.go:Proposer.Propose", "order": ["Verify", "Vote", "TryCommit", "Disseminate"]},
+        {"func": "protocol/synchronizer/synchronizer.go:Synchronizer.OnLocalTimeout", "order": ["LocalTimeoutRule", "StopVoting", "Timeout", "OnRemoteTimeout"]},
     ],
     trusted=REPLICA_TRUST,
-    assumptions=[],
+    assumptions=["round-robin or fixed leader rotation (the schemes the harness wires); C16 covers the rotation schemes themselves",
+                 "'signs a vote' is the ghost record appended by voteFor together with the Sign request (theorem voteFor_signs); the Go harness observes the real Sign calls through a wrapped crypto.Base"],
 )
 
 META = {
-    "text": "placeholder",
-    "note": "placeholder",
+    "text": "Proof: over the executable replica model (all synchronizer/voter/proposer/committer/rules/voting-machine/block-store handlers and the event loop's queue and DelayUntil discipline, ~600 lines of Lean mirroring the Go code) the invariant Inv3 is preserved by every handler and hence holds after Start and ANY sequence of delivered events with arbitrary (Byzantine) content: votes_increasing (views of signed blocks strictly increase, so at most one vote per view), no_vote_after_timeout (a vote signed after a timeout for view v has view > v), vote_wellformed (sender is the leader of the block's view, parent = block certified by its QC, QC view < block view, QC accepted by the certificate verifier; with C02's soundness theorem: a quorum of distinct genuine signatures). Proved with Lean's Std.Do Hoare logic (mvcgen), all three rulesets at once. Tie: a real replica wired like twins/node.go (real synchronizer, voter, rules, voting machine, block store, authority; recording sender; wrapped signing primitive) is driven with the same scripts as the model — mostly honest runs around the replica plus injected crafted proposals (wrong leader, stale/future/far-future view, equivocation, forged/relabelled/nil QC, parent != certified block, view <= QC view), votes, timeouts, new-views — and every effect (each Sign request, each send, each event) and the state dump are compared line by line; an oracle re-checks the vote discipline on the implementation's signing log against ground truth.",
+    "note": "Trusted: Lean kernel; model<->code tie by differential correspondence (generator quality bounds what it sees; distribution in the evidence); symbolic crypto assumptions; Go runtime. Models the code with all fix: commits applied (notably 'vote only for a block that directly extends the block certified by its QC').",
+    "technique": "Lean 4 invariant proof (Std.Do/mvcgen Hoare logic) over an executable replica model + differential correspondence with a real replica + signing-log oracle",
 }
